@@ -106,20 +106,93 @@ def _judge(args):
     return (vid, "missed", "no additional violation")
 
 
+VERIF_DIR = os.path.dirname(os.path.dirname(os.path.abspath(__file__)))
+
+
+def _load_seeds(pid):
+    """Committed, independently written and confirmed behaviour-breaking patches for this property."""
+    import json
+    import re
+
+    sdir = os.path.join(VERIF_DIR, "seeded")
+    out = []
+    exempt = {}
+    ep = os.path.join(sdir, "NOT_DECIDED.json")
+    if os.path.exists(ep):
+        exempt = json.load(open(ep))
+    if not os.path.isdir(sdir):
+        return out
+    for d in sorted(os.listdir(sdir)):
+        pf = os.path.join(sdir, d, "patch.diff")
+        if d.startswith(pid + "-") and os.path.exists(pf):
+            patch = open(pf, encoding="utf-8").read()
+            files = re.findall(r"^\+\+\+ b/(\S+)", patch, re.M)
+            out.append((d, patch, files, exempt.get(d)))
+    return out
+
+
+def _judge_seed(args):
+    import subprocess
+
+    pid, root, seed, base_keys, parent_overlay = args
+    sid, patch, files, exempt = seed
+    tmp = tempfile.mkdtemp(prefix="verif_seed_")
+    try:
+        if parent_overlay:
+            shutil.copytree(parent_overlay, tmp, dirs_exist_ok=True)
+        for f in files:
+            dst = os.path.join(tmp, f)
+            if not os.path.exists(dst):
+                src = os.path.join(root, f)
+                if not os.path.exists(src):
+                    return (sid, "skipped", "file %s missing" % f)
+                os.makedirs(os.path.dirname(dst), exist_ok=True)
+                shutil.copyfile(src, dst)
+        r = subprocess.run(["patch", "-p1", "-s", "-f", "-d", tmp], input=patch.encode(), stdout=subprocess.PIPE, stderr=subprocess.STDOUT)
+        if r.returncode != 0:
+            return (sid, "skipped", "patch does not apply to the tree under analysis")
+        for dp, dn, fn in os.walk(tmp):
+            for x in fn:
+                if x.endswith((".orig", ".rej")):
+                    os.unlink(os.path.join(dp, x))
+        try:
+            keys, errs = _run_rules(pid, root, tmp, "thorough")
+        except AnalysisError as e:
+            keys, errs = {}, [str(e)]
+        except Exception as e:
+            return (sid, "crash", "%s: %s" % (type(e).__name__, e))
+    finally:
+        shutil.rmtree(tmp, ignore_errors=True)
+    new_keys = {k: r for k, r in keys.items() if k not in base_keys}
+    if new_keys:
+        return (sid, "detected", sorted(new_keys)[0])
+    if errs:
+        return (sid, "analysis-error", errs[0])
+    if exempt:
+        return (sid, "not-decided", exempt)
+    return (sid, "missed", "no additional violation")
+
+
 def thorough_extras(pid, propmod, root, ctx):
     variants = _load_variants(pid)
-    if not variants:
+    seeds = _load_seeds(pid)
+    if not variants and not seeds:
         return {"audit": {"variants": 0, "note": "no variants registered for %s" % pid}}
     t0 = time.time()
     parent_overlay = os.environ.get("VERIF_OVERLAY") or None
     base_keys = {o.key: o.rule for o in ctx.obs if not o.ok}
     jobs = [(pid, root, v, base_keys, parent_overlay) for v in variants]
-    workers = min(16, max(1, len(jobs)))
+    sjobs = [(pid, root, sd, base_keys, parent_overlay) for sd in seeds]
+    workers = min(16, max(1, len(jobs) + len(sjobs)))
     if os.environ.get("VERIF_AUDIT_SERIAL"):
         results = [_judge(j) for j in jobs]
+        sresults = [_judge_seed(j) for j in sjobs]
     else:
         with Pool(workers) as pool:
-            results = pool.map(_judge, jobs, chunksize=1)
+            ar = pool.map_async(_judge, jobs, chunksize=1)
+            sr = pool.map_async(_judge_seed, sjobs, chunksize=1)
+            results = ar.get()
+            sresults = sr.get()
     summary = {"detected": 0, "detected-other-rule": 0, "silent": 0, "skipped": 0, "missed": 0, "false-alarm": 0, "crash": 0, "analysis-error": 0}
     failures = []
     detail = []
@@ -129,7 +202,15 @@ def thorough_extras(pid, propmod, root, ctx):
         # analysis-error on a seeded variant is acceptable (the run would exit 2, still not a silent pass)
         if verdict in ("missed", "false-alarm", "crash"):
             failures.append("%s: %s (%s)" % (vid, verdict, info))
+    ssummary = {}
+    sdetail = []
+    for sid, verdict, info in sresults:
+        ssummary[verdict] = ssummary.get(verdict, 0) + 1
+        sdetail.append({"seed": sid, "verdict": verdict, "info": info})
+        if verdict in ("missed", "crash"):
+            failures.append("seeded/%s: %s (%s)" % (sid, verdict, info))
     out = {
+        "seed_replay": {"seeds": len(seeds), "summary": ssummary, "detail": sdetail, "note": "committed patches of /verif/seeded (written independently against the property text, each confirmed to break behaviour while the test suite passes) applied to a scratch overlay; every one must raise a violation"},
         "audit": {
             "variants": len(variants),
             "seeded": sum(1 for v in variants if v[4] != "silent"),
